@@ -658,7 +658,12 @@ impl Handler<CompletionsRequest> for CompletionsRequestHandler {
         // gets the current symbol being completed.
         // assumes space separates each expression
         let curr_completion = {
-            let (beginning, _) = args.text.split_at(args.column);
+            // The column may lie behind the text, or inside a multi-byte character
+            let mut column = args.column.min(args.text.len());
+            while !args.text.is_char_boundary(column) {
+                column -= 1;
+            }
+            let (beginning, _) = args.text.split_at(column);
             match beginning.rsplit_once(' ') {
                 Some((_, text)) => text,
                 None => beginning,
